@@ -5,7 +5,7 @@
    Partial: positive semi-definiteness of the five stationary kernels (Bochner's theorem) is not
    provable with the installed libraries; it is tested numerically as support only. *)
 From Coq Require Import Reals List ZArith Lra.
-From MellonV Require Import ALists AKernels AKExpr ACovFunc AListsFacts ADocumented ADistThm AKernelsThm APsdThm.
+From MellonV Require Import ALists AKernels AKExpr ACovFunc AListsFacts ADocumented ADistThm AKernelsThm APsdThm ASchurBridge.
 Import ListNotations.
 Open Scope R_scope.
 
@@ -155,6 +155,24 @@ Theorem C05_keval_psd_partial :
   forall e, psd_shape e -> psd (keval e).
 Proof. exact keval_psd_partial. Qed.
 Print Assumptions C05_keval_psd_partial.
+
+(* The Schur product theorem is no longer assumed: it is proved for MathComp matrices over any real closed
+   field (lib/MxSchurProd.v, via the Cholesky factor of A + eI built in lib/MxChol.v), instantiated at Coq's R
+   (lib/Rstruct.v) and carried to the list presentation (thm/ASchurBridge.v). *)
+Theorem C05_hadamard_psd : forall k1 k2 : list R -> list R -> R,
+  (forall x y, k1 x y = k1 y x) -> (forall x y, k2 x y = k2 y x) ->
+  psd k1 -> psd k2 -> psd (fun x y => k1 x y * k2 x y).
+Proof. exact hadamard_psd_R. Qed.
+Print Assumptions C05_hadamard_psd.
+
+(* ... so the closure of the kernel algebra under sums, products and non-negative scalars rests on the positive
+   semi-definiteness of the base profiles alone (Bochner's theorem for the five stationary profiles and the
+   Gram form of the linear kernel: NOT proved here; the harness tests sampled Gram matrices as support) *)
+Theorem C05_keval_psd_bochner_only_partial :
+  (forall b ls, base_ok b ls -> psd (base_k b ls)) ->                                   (* kernel_psd: assumed *)
+  forall e, psd_shape e -> psd (keval e).
+Proof. exact keval_psd_bochner_only. Qed.
+Print Assumptions C05_keval_psd_bochner_only_partial.
 
 (* ---- non-vacuity of the hypotheses used above *)
 Example C05_nonvacuous :
